@@ -22,8 +22,8 @@ func init() {
 			Mutant{Prop: p, Name: "endsat-wildcard-filters-on-start-isd", File: "private/storage/path/sqlite/sqlite.go",
 				Old: `				subQ = append(subQ, "(s.EndIsdID=?)")`, New: `				subQ = append(subQ, "(s.StartIsdID=?)")`,
 				Expect: "Q3-fragment-binding"},
-			Mutant{Prop: p, Name: "startsat-binds-isd-twice", File: "private/storage/path/sqlite/sqlite.go",
-				Old: `				args = append(args, src.ISD(), src.AS())`, New: `				args = append(args, src.ISD(), src.ISD())`,
+			Mutant{Prop: p, Name: "interface-filter-binds-isd-twice", File: "private/storage/path/sqlite/sqlite.go",
+				Old: `			args = append(args, spec.IA.ISD(), spec.IA.AS(), spec.IfID)`, New: `			args = append(args, spec.IA.ISD(), spec.IA.ISD(), spec.IfID)`,
 				Expect: "Q3-fragment-binding"},
 		)
 	}
